@@ -1,0 +1,76 @@
+// SPDX-FileCopyrightText: Copyright (c) 2022-2025 Objectionary.com
+// SPDX-License-Identifier: MIT
+
+//! Read-only snapshot of the internal state, for external monitors.
+//!
+//! Compiled only with the cargo feature `verif`; adds no behaviour.
+
+use crate::{Hex, Label, Persistence, Sodg};
+
+/// One occupied slot of the vertex store, in plain types.
+#[derive(Clone, PartialEq, Eq, Hash)]
+pub struct VerifSlot {
+    /// The id of the slot.
+    pub id: usize,
+    /// Group tag: 0 absent, 1 ungrouped, 2.. group id.
+    pub branch: usize,
+    /// 0 = empty, 1 = stored (unread), 2 = taken (read).
+    pub persistence: u8,
+    /// The bytes of the datum.
+    pub data: Vec<u8>,
+    /// Is the datum in the inline representation?
+    pub data_inline: bool,
+    /// Edges, in stored order.
+    pub edges: Vec<(Label, usize)>,
+}
+
+/// Complete internal state of a graph, in plain types.
+#[derive(Clone, PartialEq, Eq, Hash)]
+pub struct VerifSnapshot {
+    /// Capacity of the vertex store.
+    pub capacity: usize,
+    /// Occupied slots of the vertex store, ascending by id.
+    pub slots: Vec<VerifSlot>,
+    /// Member lists of all group slots (index = group id), in stored order.
+    pub members: Vec<(usize, Vec<usize>)>,
+    /// Unread counters of all group slots (index = group id).
+    pub stores: Vec<(usize, usize)>,
+    /// Position of the id allocator.
+    pub next_v: usize,
+}
+
+impl<const N: usize> Sodg<N> {
+    /// Take a snapshot of the internal state.
+    #[must_use]
+    pub fn verif_snapshot(&self) -> VerifSnapshot {
+        VerifSnapshot {
+            capacity: self.vertices.capacity(),
+            slots: self
+                .vertices
+                .iter()
+                .map(|(id, vtx)| VerifSlot {
+                    id,
+                    branch: vtx.branch,
+                    persistence: match vtx.persistence {
+                        Persistence::Empty => 0,
+                        Persistence::Stored => 1,
+                        Persistence::Taken => 2,
+                    },
+                    data: match &vtx.data {
+                        Hex::Vector(v) => v.clone(),
+                        Hex::Bytes(a, l) => a[..(*l).min(a.len())].to_vec(),
+                    },
+                    data_inline: matches!(vtx.data, Hex::Bytes(_, _)),
+                    edges: vtx.edges.iter().map(|(a, v)| (*a, *v)).collect(),
+                })
+                .collect(),
+            members: self
+                .branches
+                .iter()
+                .map(|(b, m)| (b, m.iter().copied().collect()))
+                .collect(),
+            stores: self.stores.iter().map(|(b, s)| (b, *s)).collect(),
+            next_v: self.next_v,
+        }
+    }
+}
